@@ -195,10 +195,13 @@ func (st *StateTransition) preCheck() error {
 		// Make sure this transaction's nonce is correct.
 		stNonce := st.state.GetNonce(st.msg.From())
 		msgNonce := st.msg.Nonce()
-		// if stNonce < msgNonce {
-		// 	return fmt.Errorf("%w: address %v, tx: %d state: %d", ethcore.ErrNonceTooHigh,
-		// 		st.msg.From().Hex(), msgNonce, stNonce)
-		// }
+		// the mempool check lets a sequence number ahead of the account's pass (several transactions of one
+		// sender may wait for a block); when the message is executed the numbers must meet, otherwise an
+		// executed transaction stays valid until the account catches up and can be executed again
+		if stNonce < msgNonce {
+			return fmt.Errorf("%w: address %v, tx: %d state: %d", ethcore.ErrNonceTooHigh,
+				st.msg.From().Hex(), msgNonce, stNonce)
+		}
 		if stNonce > msgNonce {
 			return fmt.Errorf("%w: address %v, tx: %d state: %d", ethcore.ErrNonceTooLow,
 				st.msg.From().Hex(), msgNonce, stNonce)
